@@ -1160,13 +1160,15 @@ impl super::DiskFS for Disk {
             if !entry.get_access(Access::Destroy) {
                 return Err(Box::new(Error::WriteProtected));
             }
-            self.deallocate_file_blocks(&entry)?;
+            // the directory is written before the blocks are released in the bitmap buffer, so that a refused
+            // write (write protected image) leaves the buffer equal to the image
             let mut dir = self.get_directory(loc.block as usize)?;
             dir.delete_entry(&loc);
             self.write_block(&dir.to_bytes(),loc.block as usize,0)?;
             let (key_ptr,mut key_dir) = self.get_key_directory(loc.block)?;
             key_dir.dec_file_count();
             self.write_block(&key_dir.to_bytes(),key_ptr as usize,0)?;
+            self.deallocate_file_blocks(&entry)?;
             return Ok(());
         }
         if let Ok(ptr) = self.find_dir_key_block(path) {
